@@ -34,6 +34,8 @@ TReset == /\ Is("Reset")
 
 TBuffered == /\ Is("Buffered") /\ strict
              /\ E.ok /\ E.mtype = "message" /\ E.role = "assistant" /\ KindsOK(E.blocks)
+             \* well-formed on the wire: a tool_use block has its "input", a text block its "text", empty or not
+             /\ ("wire" \in DOMAIN E => E.wire)
              /\ Buffered(BlkSeq(E.blocks), E.stop, E.uin, E.uout)
              /\ Consume
 
